@@ -59,11 +59,19 @@ pub trait Packetize: TryFrom<Vec<u8>> + Sized {
 
 pub struct Stream<T> {
     inner: T,
+    /// Header bytes received so far; kept across cancelled `read_frame` calls.
+    header_buffer: [u8; PROTO_BUFFER_SIZE],
+    /// Number of valid bytes in `header_buffer`.
+    header_length: usize,
 }
 
 impl<T> Stream<T> {
     pub fn new(inner: T) -> Self {
-        Self { inner }
+        Self {
+            inner,
+            header_buffer: [0u8; PROTO_BUFFER_SIZE],
+            header_length: 0,
+        }
     }
 
     #[inline]
@@ -119,12 +127,24 @@ impl<T: AsyncWrite + Unpin> Stream<T> {
 }
 
 impl<T: AsyncRead + Unpin> Stream<T> {
+    /// Read a frame header.
+    ///
+    /// This method is cancel safe: a partially received header is kept in the
+    /// stream and completed by the next call, so it can be used in `select!`.
     pub async fn read_frame(&mut self) -> std::io::Result<frame::Frame> {
-        let mut header_buffer = [0u8; PROTO_BUFFER_SIZE];
+        while self.header_length < PROTO_BUFFER_SIZE {
+            let n = self
+                .inner
+                .read(&mut self.header_buffer[self.header_length..])
+                .await?;
+            if n == 0 {
+                return Err(std::io::ErrorKind::UnexpectedEof.into());
+            }
+            self.header_length += n;
+        }
+        self.header_length = 0;
 
-        self.inner.read_exact(&mut header_buffer).await?;
-
-        frame::Frame::try_from(&header_buffer[..]).map_err(|e| {
+        frame::Frame::try_from(&self.header_buffer[..]).map_err(|e| {
             std::io::Error::new(
                 std::io::ErrorKind::InvalidData,
                 format!("Failed to parse frame: {}", e),
